@@ -42,10 +42,12 @@ VARIABLES
   cdep,    \* call depth (for `calls`)
   trk,     \* error tracker: [pos, positive, att, stack]
   skp,     \* nesting depth of implicit skips (they run under a throw-away tracker)
+  dv,      \* derivation events in pre-order (what the typed tree stores): rule / leaf / alt / opt / rep / iter /
+           \* seq / elem / push records, patched on success, truncated on failure; nothing from implicit skips
   log,     \* ghost: every invocation of a non-silent rule [r, at, ok]
   fin      \* results collected at the end of the partial phase
 
-mvars == <<pc, cur, ok, pos, stk, K, at, look, dep, toks, calls, cdep, trk, skp, log, fin>>
+mvars == <<pc, cur, ok, pos, stk, K, at, look, dep, toks, calls, cdep, trk, skp, dv, log, fin>>
 vars == <<cfg, mvars>>
 
 StackBound == 400
@@ -112,25 +114,37 @@ PopRet(b) == /\ pc' = "ret" /\ ok' = b /\ K' = Below
 \* UNCHANGED groups
 UEnv == UNCHANGED <<cfg, fin>>
 UTree == UNCHANGED <<at, look, dep, toks, calls, cdep>>
+UDv == UNCHANGED dv
+
+\* derivation queue: append / patch only outside implicit skips; a frame remembers the index of its record (0 = none)
+DvOn == skp = 0
+DvIdx == IF DvOn THEN Len(dv) + 1 ELSE 0
+DvApp(q, ev) == IF DvOn THEN Append(q, ev @@ [d |-> cdep]) ELSE q
+LeafKind == IF cur.t = "call" THEN cur.n ELSE cur.t
 UTrk == UNCHANGED <<trk, skp, log>>
 
 Leaf(b, p) == /\ pc' = "ret" /\ ok' = b /\ pos' = p
+              /\ dv' = (IF b THEN DvApp(dv, [k |-> "leaf", r |-> LeafKind, s |-> pos, e |-> p]) ELSE dv)
               /\ UNCHANGED <<cur, K, stk>> /\ UEnv /\ UTree /\ UTrk
 LeafS(b, p, s) == /\ pc' = "ret" /\ ok' = b /\ pos' = p /\ stk' = s
+                  /\ dv' = (IF b THEN DvApp(dv, [k |-> "leaf", r |-> LeafKind, s |-> pos, e |-> p]) ELSE dv)
                   /\ UNCHANGED <<cur, K>> /\ UEnv /\ UTree /\ UTrk
 \* a failing stack built-in that reports a special error (only on the main tracker)
 LeafErr(what) == /\ pc' = "ret" /\ ok' = FALSE
                  /\ trk' = (IF skp = 0 THEN TrkSpecial(trk, pos, what) ELSE trk)
-                 /\ UNCHANGED <<cur, K, stk, pos, skp, log>> /\ UEnv /\ UTree
+                 /\ UNCHANGED <<cur, K, stk, pos, skp, log>> /\ UEnv /\ UTree /\ UDv
 
 Evaluating(t) == pc = "eval" /\ cur.t = t
 CallOf(n) == pc = "eval" /\ cur.t = "call" /\ cur.n = n /\ ~HasRule(n)
 Returning(f) == pc = "ret" /\ K # <<>> /\ Top.f = f
 
-Saved == [p0 |-> pos, s0 |-> stk, t0 |-> Len(toks), c0 |-> Len(calls)]
-\* undo a failed attempt: cursor, stack, token queue, call queue
+SavedV(v) == [p0 |-> pos, s0 |-> stk, t0 |-> Len(toks), c0 |-> Len(calls), v0 |-> v]
+Saved == SavedV(Len(dv))
+\* undo a failed attempt: cursor, stack, token queue, call queue, derivation queue
 Restore(fr) == /\ pos' = fr.p0 /\ stk' = fr.s0
-               /\ toks' = SubSeq(toks, 1, fr.t0) /\ calls' = SubSeq(calls, 1, fr.c0)
+               /\ toks' = SubSeq(toks, 1, fr.t0) /\ calls' = SubSeq(calls, 1, fr.c0) /\ dv' = SubSeq(dv, 1, fr.v0)
+Patch(q, i, f, v) == IF i > 0 THEN [q EXCEPT ![i] = [@ EXCEPT ![f] = v]] ELSE q
+Cut(q, i) == IF i > 0 THEN SubSeq(q, 1, i - 1) ELSE q
 
 SkipExpr == [t |-> "skip"]
 
@@ -189,76 +203,98 @@ UndefinedSkipRule == pc = "eval" /\ cur.t = "call" /\ ~HasRule(cur.n) /\ IsSkipR
 --------------------------------------------------------------------------
 (* Sequence (main/src/sequence.rs): skip before every element but the first *)
 
-SeqEnter == Evaluating("seq") /\ Enter([f |-> "seq", xs |-> cur.xs, i |-> 1], cur.xs[1])
+SeqEnter == Evaluating("seq") /\ Enter([f |-> "seq", xs |-> cur.xs, i |-> 1, vi |-> DvIdx, ei |-> IF DvOn THEN Len(dv) + 2 ELSE 0], cur.xs[1])
+            /\ dv' = DvApp(DvApp(dv, [k |-> "seq", s |-> pos, e |-> pos, n |-> Len(cur.xs)]), [k |-> "elem", i |-> 1, s |-> pos, m |-> pos, e |-> pos])
             /\ UNCHANGED <<ok, pos, stk>> /\ UEnv /\ UTree /\ UTrk
 
 SeqElemOk == Returning("seq") /\ ok /\
-  IF Top.i = Len(Top.xs) THEN PopRet(TRUE) /\ UNCHANGED <<cur, pos, stk>> /\ UEnv /\ UTree /\ UTrk
-  ELSE /\ pc' = "eval" /\ cur' = SkipExpr /\ K' = <<[f |-> "seqskip", xs |-> Top.xs, i |-> Top.i]>> \o Below
+  IF Top.i = Len(Top.xs)
+  THEN PopRet(TRUE) /\ dv' = Patch(Patch(dv, Top.ei, "e", pos), Top.vi, "e", pos)
+       /\ UNCHANGED <<cur, pos, stk>> /\ UEnv /\ UTree /\ UTrk
+  ELSE /\ pc' = "eval" /\ cur' = SkipExpr
+       /\ K' = <<[f |-> "seqskip", xs |-> Top.xs, i |-> Top.i, vi |-> Top.vi, ss |-> pos]>> \o Below
+       /\ dv' = Patch(dv, Top.ei, "e", pos)
        /\ UNCHANGED <<ok, pos, stk>> /\ UEnv /\ UTree /\ UTrk
 
 SeqSkipDone == Returning("seqskip") /\
-  /\ pc' = "eval" /\ cur' = Top.xs[Top.i + 1] /\ K' = <<[f |-> "seq", xs |-> Top.xs, i |-> Top.i + 1]>> \o Below
+  /\ pc' = "eval" /\ cur' = Top.xs[Top.i + 1]
+  /\ K' = <<[f |-> "seq", xs |-> Top.xs, i |-> Top.i + 1, vi |-> Top.vi, ei |-> DvIdx]>> \o Below
+  /\ dv' = DvApp(dv, [k |-> "elem", i |-> Top.i + 1, s |-> Top.ss, m |-> pos, e |-> pos])
   /\ UNCHANGED <<ok, pos, stk>> /\ UEnv /\ UTree /\ UTrk
 
-SeqFail == Returning("seq") /\ ~ok /\ PopRet(FALSE) /\ UNCHANGED <<cur, pos, stk>> /\ UEnv /\ UTree /\ UTrk
+SeqFail == Returning("seq") /\ ~ok /\ PopRet(FALSE) /\ dv' = Cut(dv, Top.vi) /\ UNCHANGED <<cur, pos, stk>> /\ UEnv /\ UTree /\ UTrk
 
 --------------------------------------------------------------------------
 (* Choice (main/src/choices.rs): every alternative inside restore_on_none *)
 
-AltEnter == Evaluating("alt") /\ Enter([f |-> "alt", xs |-> cur.xs, i |-> 1] @@ Saved, cur.xs[1])
-            /\ UNCHANGED <<ok, pos, stk>> /\ UEnv /\ UTree /\ UTrk
+AltEnter == Evaluating("alt") /\
+  LET dv2 == DvApp(dv, [k |-> "alt", s |-> pos, e |-> pos, i |-> 0, n |-> Len(cur.xs)]) IN
+  /\ Enter([f |-> "alt", xs |-> cur.xs, i |-> 1, vi |-> DvIdx] @@ SavedV(Len(dv2)), cur.xs[1]) /\ dv' = dv2
+  /\ UNCHANGED <<ok, pos, stk>> /\ UEnv /\ UTree /\ UTrk
 
-AltOk == Returning("alt") /\ ok /\ PopRet(TRUE) /\ UNCHANGED <<cur, pos, stk>> /\ UEnv /\ UTree /\ UTrk
+AltOk == Returning("alt") /\ ok /\ PopRet(TRUE) /\ dv' = Patch(Patch(dv, Top.vi, "i", Top.i - 1), Top.vi, "e", pos)
+         /\ UNCHANGED <<cur, pos, stk>> /\ UEnv /\ UTree /\ UTrk
 
-AltFail == Returning("alt") /\ ~ok /\ Restore(Top) /\
+AltFail == Returning("alt") /\ ~ok /\
   (IF Top.i < Len(Top.xs)
-   THEN /\ pc' = "eval" /\ cur' = Top.xs[Top.i + 1] /\ K' = <<[Top EXCEPT !.i = @ + 1]>> \o Below /\ UNCHANGED ok
-   ELSE PopRet(FALSE) /\ UNCHANGED cur)
+   THEN /\ Restore(Top) /\ pc' = "eval" /\ cur' = Top.xs[Top.i + 1] /\ K' = <<[Top EXCEPT !.i = @ + 1]>> \o Below /\ UNCHANGED ok
+   ELSE Restore([Top EXCEPT !.v0 = IF Top.vi > 0 THEN Top.vi - 1 ELSE Top.v0]) /\ PopRet(FALSE) /\ UNCHANGED cur)
   /\ UNCHANGED <<at, look, dep, cdep>> /\ UEnv /\ UTrk
 
 --------------------------------------------------------------------------
 (* Optional (main/src/typed_node.rs) *)
 
-OptEnter == Evaluating("opt") /\ Enter([f |-> "opt"] @@ Saved, cur.e)
-            /\ UNCHANGED <<ok, pos, stk>> /\ UEnv /\ UTree /\ UTrk
-OptOk == Returning("opt") /\ ok /\ PopRet(TRUE) /\ UNCHANGED <<cur, pos, stk>> /\ UEnv /\ UTree /\ UTrk
+OptEnter == Evaluating("opt") /\
+  LET dv2 == DvApp(dv, [k |-> "opt", s |-> pos, e |-> pos, i |-> 0]) IN
+  /\ Enter([f |-> "opt", vi |-> DvIdx] @@ SavedV(Len(dv2)), cur.e) /\ dv' = dv2
+  /\ UNCHANGED <<ok, pos, stk>> /\ UEnv /\ UTree /\ UTrk
+OptOk == Returning("opt") /\ ok /\ PopRet(TRUE) /\ dv' = Patch(Patch(dv, Top.vi, "i", 1), Top.vi, "e", pos)
+         /\ UNCHANGED <<cur, pos, stk>> /\ UEnv /\ UTree /\ UTrk
 OptFail == Returning("opt") /\ ~ok /\ Restore(Top) /\ PopRet(TRUE)
            /\ UNCHANGED <<cur, at, look, dep, cdep>> /\ UEnv /\ UTrk
 
 \* RestoreOnErr of pest's optimizer is transparent (every attempt restores anyway)
 RestoreNode == Evaluating("restore") /\ pc' = "eval" /\ cur' = cur.e
-               /\ UNCHANGED <<ok, pos, stk, K>> /\ UEnv /\ UTree /\ UTrk
+               /\ UNCHANGED <<ok, pos, stk, K>> /\ UEnv /\ UTree /\ UTrk /\ UDv
 
 --------------------------------------------------------------------------
 (* Repetition (predefined_node/repetition.rs): unit = [skip iff i > 0] element,   *)
 (* the whole unit inside restore_on_none; i < MIN on failure fails; stop at MAX   *)
 
-RepFrame(e, i) == [f |-> "rep", e |-> e, i |-> i, ph |-> "elem"] @@ Saved
+\* q = derivation queue on entry of the unit (its "rep" record at index vi), i = iterations done so far.
+\* MAX reached ends the repetition: it succeeds iff at least MIN iterations matched.
+RepFrame(e, i, vi, q) == [f |-> "rep", e |-> e, i |-> i, ph |-> "elem", vi |-> vi, ii |-> IF DvOn THEN Len(q) + 1 ELSE 0] @@ SavedV(Len(q))
 
-RepBegin(e, i, below) ==
+RepBegin(e, i, vi, q, below) ==
   IF e.max >= 0 /\ i >= e.max
-  THEN /\ pc' = "ret" /\ ok' = TRUE /\ K' = below /\ UNCHANGED cur
-  ELSE IF i = 0
-       THEN /\ pc' = "eval" /\ cur' = e.e /\ K' = <<RepFrame(e, i)>> \o below /\ UNCHANGED ok
-       ELSE /\ pc' = "eval" /\ cur' = SkipExpr /\ K' = <<[RepFrame(e, i) EXCEPT !.ph = "skip"]>> \o below /\ UNCHANGED ok
+  THEN /\ pc' = "ret" /\ ok' = (i >= e.min) /\ K' = below /\ dv' = (IF i >= e.min THEN q ELSE Cut(q, vi)) /\ UNCHANGED cur
+  ELSE /\ dv' = DvApp(q, [k |-> "iter", i |-> i, s |-> pos, m |-> pos, e |-> pos])
+       /\ IF i = 0
+          THEN /\ pc' = "eval" /\ cur' = e.e /\ K' = <<RepFrame(e, i, vi, q)>> \o below /\ UNCHANGED ok
+          ELSE /\ pc' = "eval" /\ cur' = SkipExpr /\ K' = <<[RepFrame(e, i, vi, q) EXCEPT !.ph = "skip"]>> \o below /\ UNCHANGED ok
 
-RepEnter == Evaluating("rep") /\ RepBegin(cur, 0, K) /\ UNCHANGED <<pos, stk>> /\ UEnv /\ UTree /\ UTrk
+RepEnter == Evaluating("rep") /\ RepBegin(cur, 0, DvIdx, DvApp(dv, [k |-> "rep", s |-> pos, e |-> pos, n |-> 0]), K)
+            /\ UNCHANGED <<pos, stk>> /\ UEnv /\ UTree /\ UTrk
 
 RepSkipDone == Returning("rep") /\ Top.ph = "skip" /\
   /\ pc' = "eval" /\ cur' = Top.e.e /\ K' = <<[Top EXCEPT !.ph = "elem"]>> \o Below
+  /\ dv' = Patch(dv, Top.ii, "m", pos)
   /\ UNCHANGED <<ok, pos, stk>> /\ UEnv /\ UTree /\ UTrk
 
 \* an unbounded repetition whose iteration succeeded without changing cursor or stack repeats forever
 NoProgress == pos = Top.p0 /\ stk = Top.s0
 
 RepIterOk == Returning("rep") /\ Top.ph = "elem" /\ ok /\ ~(Top.e.max < 0 /\ NoProgress) /\
-  RepBegin(Top.e, Top.i + 1, Below) /\ UNCHANGED <<pos, stk>> /\ UEnv /\ UTree /\ UTrk
+  RepBegin(Top.e, Top.i + 1, Top.vi,
+           Patch(Patch(Patch(dv, Top.ii, "e", pos), Top.vi, "n", Top.i + 1), Top.vi, "e", pos), Below)
+  /\ UNCHANGED <<pos, stk>> /\ UEnv /\ UTree /\ UTrk
 
 RepDiverge == Returning("rep") /\ Top.ph = "elem" /\ ok /\ Top.e.max < 0 /\ NoProgress /\
-  pc' = "diverged" /\ UNCHANGED <<cur, ok, pos, stk, K>> /\ UEnv /\ UTree /\ UTrk
+  pc' = "diverged" /\ UNCHANGED <<cur, ok, pos, stk, K>> /\ UEnv /\ UTree /\ UTrk /\ UDv
 
-RepIterFail == Returning("rep") /\ Top.ph = "elem" /\ ~ok /\ Restore(Top) /\
+\* the failed unit (skip included) is given back; fewer than MIN iterations: the repetition fails
+RepIterFail == Returning("rep") /\ Top.ph = "elem" /\ ~ok /\
+  Restore(IF Top.i >= Top.e.min \/ Top.vi = 0 THEN Top ELSE [Top EXCEPT !.v0 = Top.vi - 1]) /\
   PopRet(Top.i >= Top.e.min) /\ UNCHANGED <<cur, at, look, dep, cdep>> /\ UEnv /\ UTrk
 
 --------------------------------------------------------------------------
@@ -268,11 +304,12 @@ PredEnter == (Evaluating("pos") \/ Evaluating("neg")) /\
   /\ Enter([f |-> "pred", neg |-> cur.t = "neg", tp |-> trk.positive] @@ Saved, cur.e)
   /\ look' = look + 1
   /\ trk' = [trk EXCEPT !.positive = (cur.t = "pos")]
-  /\ UNCHANGED <<ok, pos, stk, at, dep, toks, calls, cdep, skp, log>> /\ UEnv
+  /\ UNCHANGED <<ok, pos, stk, at, dep, toks, calls, cdep, skp, log>> /\ UEnv /\ UDv
 
 PredExit == Returning("pred") /\
   /\ pos' = Top.p0 /\ stk' = Top.s0 /\ toks' = SubSeq(toks, 1, Top.t0)
   /\ calls' = (IF Top.neg \/ ~ok THEN SubSeq(calls, 1, Top.c0) ELSE calls)
+  /\ dv' = (IF Top.neg \/ ~ok THEN SubSeq(dv, 1, Top.v0) ELSE dv)
   /\ look' = look - 1
   /\ trk' = [trk EXCEPT !.positive = Top.tp]
   /\ pc' = "ret" /\ ok' = (IF Top.neg THEN ~ok ELSE ok) /\ K' = Below
@@ -291,7 +328,8 @@ RuleEnter == pc = "eval" /\ cur.t = "call" /\ HasRule(cur.n) /\
       rec == rl.ty # "silent"
       inskip == skp > 0
   IN /\ Enter([f |-> "rule", n |-> cur.n, p0 |-> pos, a0 |-> at, d0 |-> dep, cd0 |-> cdep, emit |-> emit,
-               rec |-> rec, ti |-> Len(toks) + 1, ci |-> Len(calls) + 1, nocall |-> inskip], rl.expr)
+               rec |-> rec, ti |-> Len(toks) + 1, ci |-> Len(calls) + 1, nocall |-> inskip, vi |-> DvIdx], rl.expr)
+     /\ dv' = DvApp(dv, [k |-> "rule", r |-> cur.n, s |-> pos, e |-> pos, sil |-> rl.ty = "silent"])
      /\ at' = AtomBody(rl, ctx)
      /\ toks' = (IF emit THEN Append(toks, Tok(cur.n, pos, pos, dep)) ELSE toks)
      /\ dep' = (IF emit THEN dep + 1 ELSE dep)
@@ -307,6 +345,7 @@ RuleExit == Returning("rule") /\
               ELSE IF Top.emit THEN [toks EXCEPT ![Top.ti].e = pos] ELSE toks)
   /\ calls' = (IF Top.nocall THEN calls
                ELSE IF ~ok THEN SubSeq(calls, 1, Top.ci - 1) ELSE [calls EXCEPT ![Top.ci].e = pos])
+  /\ dv' = (IF ~ok THEN Cut(dv, Top.vi) ELSE Patch(dv, Top.vi, "e", pos))
   /\ trk' = (IF Top.rec /\ Tracked THEN TrkPop(trk, Top.n, Top.p0, ok) ELSE trk)
   /\ log' = (IF Top.rec THEN Append(log, [r |-> Top.n, at |-> Top.p0, ok |-> ok]) ELSE log)
   /\ UNCHANGED <<cur, pos, stk, look, skp>> /\ UEnv
@@ -320,14 +359,17 @@ EoiRule == CallOf("EOI") /\
   /\ calls' = (IF b /\ skp = 0 THEN Append(calls, [r |-> "EOI", s |-> pos, e |-> pos, d |-> cdep, sil |-> FALSE]) ELSE calls)
   /\ trk' = (IF Tracked THEN TrkPop(TrkPush(trk, "EOI", pos), "EOI", pos, b) ELSE trk)
   /\ log' = Append(log, [r |-> "EOI", at |-> pos, ok |-> b])
+  /\ dv' = (IF b THEN DvApp(dv, [k |-> "leaf", r |-> "EOI", s |-> pos, e |-> pos]) ELSE dv)
   /\ UNCHANGED <<cur, pos, stk, K, at, look, dep, cdep, skp>> /\ UEnv
 
 --------------------------------------------------------------------------
 (* PUSH *)
 
-PushEnter == Evaluating("push") /\ Enter([f |-> "push", p0 |-> pos], cur.e)
+PushEnter == Evaluating("push") /\ Enter([f |-> "push", p0 |-> pos, vi |-> DvIdx], cur.e)
+             /\ dv' = DvApp(dv, [k |-> "push", s |-> pos, e |-> pos])
              /\ UNCHANGED <<ok, pos, stk>> /\ UEnv /\ UTree /\ UTrk
 PushExit == Returning("push") /\ PopRet(ok) /\ stk' = (IF ok THEN Append(stk, <<Top.p0, pos>>) ELSE stk)
+            /\ dv' = (IF ok THEN Patch(dv, Top.vi, "e", pos) ELSE Cut(dv, Top.vi))
             /\ UNCHANGED <<cur, pos>> /\ UEnv /\ UTree /\ UTrk
 
 --------------------------------------------------------------------------
@@ -335,7 +377,7 @@ PushExit == Returning("push") /\ PopRet(ok) /\ stk' = (IF ok THEN Append(stk, <<
 (* Only in non-atomic context; each iteration is an attempt.                                              *)
 
 SkipNone == Evaluating("skip") /\ (at # "N" \/ ~(HasWS \/ HasCM)) /\
-  pc' = "ret" /\ ok' = TRUE /\ UNCHANGED <<cur, pos, stk, K>> /\ UEnv /\ UTree /\ UTrk
+  pc' = "ret" /\ ok' = TRUE /\ UNCHANGED <<cur, pos, stk, K>> /\ UEnv /\ UTree /\ UTrk /\ UDv
 
 SkipTry(below) ==
   LET first == IF HasWS THEN "WHITESPACE" ELSE "COMMENT" IN
@@ -343,7 +385,7 @@ SkipTry(below) ==
   /\ K' = <<[f |-> "skip", which |-> first] @@ Saved>> \o below
 
 SkipBegin == Evaluating("skip") /\ at = "N" /\ (HasWS \/ HasCM) /\
-  SkipTry(K) /\ skp' = skp + 1 /\ UNCHANGED <<ok, pos, stk, trk, log>> /\ UEnv /\ UTree
+  SkipTry(K) /\ skp' = skp + 1 /\ UNCHANGED <<ok, pos, stk, trk, log>> /\ UEnv /\ UTree /\ UDv
 
 \* WHITESPACE failed: restore, try COMMENT
 SkipWSFail == Returning("skip") /\ ~ok /\ Top.which = "WHITESPACE" /\ HasCM /\ Restore(Top) /\
@@ -351,10 +393,10 @@ SkipWSFail == Returning("skip") /\ ~ok /\ Top.which = "WHITESPACE" /\ HasCM /\ R
   /\ UNCHANGED <<ok, at, look, dep, cdep>> /\ UEnv /\ UTrk
 
 SkipIterOk == Returning("skip") /\ ok /\ ~NoProgress /\
-  SkipTry(Below) /\ UNCHANGED <<ok, pos, stk>> /\ UEnv /\ UTree /\ UTrk
+  SkipTry(Below) /\ UNCHANGED <<ok, pos, stk>> /\ UEnv /\ UTree /\ UTrk /\ UDv
 
 SkipDiverge == Returning("skip") /\ ok /\ NoProgress /\
-  pc' = "diverged" /\ UNCHANGED <<cur, ok, pos, stk, K>> /\ UEnv /\ UTree /\ UTrk
+  pc' = "diverged" /\ UNCHANGED <<cur, ok, pos, stk, K>> /\ UEnv /\ UTree /\ UTrk /\ UDv
 
 \* last alternative failed: restore that attempt, the skip ends (it never fails).
 \* Tokens of the skipped rules stay (they appear before the following element);
@@ -369,15 +411,15 @@ Report(t) == [pos |-> Off(t.pos), att |-> t.att]
 
 \* try_parse_partial returned: collect, then continue as try_parse would
 PartialDone == pc = "ret" /\ K = <<>> /\
-  /\ fin' = [ok |-> ok, endc |-> pos, end |-> Off(pos), toks |-> toks, calls |-> calls,
+  /\ fin' = [ok |-> ok, endc |-> pos, end |-> Off(pos), toks |-> toks, calls |-> calls, dv |-> dv,
              stk |-> stk, trk |-> Report(trk), log |-> log]
   /\ IF ~ok THEN pc' = "done" /\ UNCHANGED <<cur, K>>
      ELSE IF EntryTrails THEN pc' = "eval" /\ cur' = SkipExpr /\ K' = <<[f |-> "trail"]>>
      ELSE pc' = "eoi" /\ UNCHANGED <<cur, K>>
-  /\ UNCHANGED <<ok, pos, stk, cfg>> /\ UTree /\ UTrk
+  /\ UNCHANGED <<ok, pos, stk, cfg>> /\ UTree /\ UTrk /\ UDv
 
 TrailDone == Returning("trail") /\ pc' = "eoi" /\ K' = <<>>
-             /\ UNCHANGED <<cur, ok, pos, stk>> /\ UEnv /\ UTree /\ UTrk
+             /\ UNCHANGED <<cur, ok, pos, stk>> /\ UEnv /\ UTree /\ UTrk /\ UDv
 
 \* record_during_with(rule_eoi, EOI): childless rule at the current position
 Finish == pc = "eoi" /\
@@ -386,10 +428,10 @@ Finish == pc = "eoi" /\
   /\ pc' = "done" /\ ok' = b /\ trk' = t2
   /\ log' = Append(log, [r |-> "EOI", at |-> pos, ok |-> b])
   /\ fin' = fin @@ [fullok |-> b, fullend |-> Off(pos), fulltrk |-> Report(t2)]
-  /\ UNCHANGED <<cfg, cur, pos, stk, K, skp>> /\ UTree
+  /\ UNCHANGED <<cfg, cur, pos, stk, K, skp>> /\ UTree /\ UDv
 
 Overflow == pc \in {"eval", "ret"} /\ Len(K) > StackBound /\ pc' = "overflow"
-            /\ UNCHANGED <<cur, ok, pos, stk, K>> /\ UEnv /\ UTree /\ UTrk
+            /\ UNCHANGED <<cur, ok, pos, stk, K>> /\ UEnv /\ UTree /\ UTrk /\ UDv
 
 --------------------------------------------------------------------------
 
@@ -412,7 +454,7 @@ MNext == (Len(K) <= StackBound /\ Step) \/ Overflow
 MInit ==
   /\ pc = "eval" /\ cur = [t |-> "call", n |-> cfg.rule] /\ ok = TRUE
   /\ pos = Lo /\ stk = <<>> /\ K = <<>> /\ at = "N" /\ look = 0 /\ dep = 0
-  /\ toks = <<>> /\ calls = <<>> /\ cdep = 0 /\ trk = EmptyTrk(Lo) /\ skp = 0 /\ log = <<>>
+  /\ toks = <<>> /\ calls = <<>> /\ cdep = 0 /\ trk = EmptyTrk(Lo) /\ skp = 0 /\ dv = <<>> /\ log = <<>>
   /\ fin = [ok |-> FALSE]
 
 Halted == pc \in {"done", "diverged", "overflow"}
